@@ -196,7 +196,9 @@ def _safe(s):
 
 
 def write_evidence(R, level, explanation, extra_assumptions=()):
-    obs = R.obligations
+    # obligations that re-confirm a listed known finding are reported as findings, not counted as proof obligations
+    known_keys = set(k['key'] for k, _ in R.known_hits)
+    obs = [o for o in R.obligations if o.name.split('#case-')[0] not in known_keys]
     n = len(obs) + len(R.ground)
     disc = sum(1 for o in obs if o.status == 'unsat') + sum(1 for g in R.ground if g[1])
     samples = []
@@ -220,6 +222,7 @@ def write_evidence(R, level, explanation, extra_assumptions=()):
         explanation=explanation,
         samples=samples + R.samples[:6],
         known_findings_reconfirmed=[k['key'] for k, _ in R.known_hits],
+        undischarged_listed_as_known_findings=len(R.obligations) - len(obs),
     )
     if R.bounded:
         cov['bounded'] = R.bounded
